@@ -164,7 +164,16 @@ func checkC01(c *Ctx, r *Report) {
 							switch y := r2.(type) {
 							case *ssa.Call:
 								n := calleeName(y)
-								r.Check(n == "bytes.NewReader" || n == "builtin.len", "C01.R2", fnKey(f)+": stored body used via "+n, c.InstrPos(y), "read-only view", "the stored body slice is handed to "+n+", which may modify or retain it")
+								okView := n == "bytes.NewReader" || n == "builtin.len"
+								if h := helperBody(y); h != nil && !okView {
+									// a same-package helper that itself only wraps the slice in a read-only view
+									for ai, a := range callArgs(y) {
+										if a == ssa.Value(x) && ai < len(h.Params) {
+											okView = onlyReadOnlyViews(h.Params[ai], 0)
+										}
+									}
+								}
+								r.Check(okView, "C01.R2", fnKey(f)+": stored body used via "+n, c.InstrPos(y), "read-only view", "the stored body slice is handed to "+n+", which may modify or retain it")
 							case *ssa.DebugRef:
 							default:
 								r.Fail("C01.R2", fnKey(f)+": stored body used by "+fmt.Sprintf("%T", r2), c.InstrPos(r2), "the stored body slice is indexed / re-sliced / stored elsewhere: it is no longer immutable after publication")
@@ -721,4 +730,40 @@ func checkC11(c *Ctx, r *Report) {
 		}
 		r.Check(okCfg, "C11.R2", "the TLS server presents the certificate obtained for this host", c.Pos(f.Pos()), "tls.Config.Certificates = {*cert}", "tls.Config.Certificates is not built from the certificate returned by GetCertForHost")
 	}
+}
+
+// onlyReadOnlyViews: the byte-slice value v is used for nothing but bytes.NewReader / len (directly or through
+// further same-package helpers that do the same).
+func onlyReadOnlyViews(v ssa.Value, depth int) bool {
+	if depth > 2 || v.Referrers() == nil {
+		return false
+	}
+	n := 0
+	for _, ref := range *v.Referrers() {
+		switch y := ref.(type) {
+		case *ssa.DebugRef:
+		case *ssa.Call:
+			n++
+			name := calleeName(y)
+			if name == "bytes.NewReader" || name == "builtin.len" {
+				continue
+			}
+			h := helperBody(y)
+			if h == nil {
+				return false
+			}
+			ok := false
+			for ai, a := range callArgs(y) {
+				if a == v && ai < len(h.Params) {
+					ok = onlyReadOnlyViews(h.Params[ai], depth+1)
+				}
+			}
+			if !ok {
+				return false
+			}
+		default:
+			return false
+		}
+	}
+	return n > 0
 }
